@@ -3,7 +3,7 @@
 (* the model-checked part of C09 is MC_Adversarial).                           *)
 EXTENDS RobustCases, Json
 CONSTANT Depths          \* [seq |-> lengths, nest |-> nesting depths]
-DepthsQuick == [seq |-> <<10, 100, 10000>>, nest |-> <<10, 100, 1000>>]
+DepthsQuick == [seq |-> <<10, 100, 10000>>, nest |-> <<10, 100, 1000, 10000>>]
 DepthsThorough == [seq |-> <<10, 100, 1000, 3000, 10000, 30000>>, nest |-> <<10, 100, 1000, 3000, 10000>>]
 VARIABLE i
 All == Fixed \o RangeAdversarial \o KeyAdversarial \o PluralAdversarial \o NameAdversarial \o InheritsLoops \o ConfigAdversarial \o FormatterAdversarial \o NamespaceAdversarial \o Cat([d \in 1..Len(Depths.seq) |-> DeepSeq(Depths.seq[d])]) \o Cat([d \in 1..Len(Depths.nest) |-> DeepNest(Depths.nest[d])])
